@@ -100,7 +100,27 @@ def run(ctx):
                         src_name = os.path.join(d, "latest.tdf")
                         os.symlink(src, src_name)
                         rep["source_named_through_symlink"] = True
-                    result = Tdf(src_name).copy(target)
+                    if rng.random() < 0.4:
+                        # the copy is made while the source object is inside a context (plain or write-enabled), and the object
+                        # that copy() returns is then used as it is: it belongs to the NEW file and to no context
+                        so = Tdf(src_name)
+                        if rng.random() < 0.5:
+                            so.allow_write()
+                        with so:
+                            result = so.copy(target)
+                            probe_before = (open(src, "rb").read(), read_node(target))
+                            try:
+                                from basictdf.tdfBlock import BlockType
+                                live = [e.type for e in so.entries if e.type.value != 0]
+                                result.remove_block(live[0] if live else BlockType.temporalEventsData)
+                            except Exception:
+                                pass
+                            if (open(src, "rb").read(), read_node(target)) != probe_before:
+                                ctx.fail("a mutation issued through the object copy() returned (made while the source was inside a context) changed "
+                                         + ("the ORIGINAL" if open(src, "rb").read() != probe_before[0] else "the copy") + " without any write context of its own",
+                                         dict(rep, copy_inside_source_context=True), ident="copy object shares the source's context")
+                    else:
+                        result = Tdf(src_name).copy(target)
                 else:
                     with Tdf(target) as t:
                         result = len(t.entries)
